@@ -4,6 +4,7 @@
    tick): quantifying over all h quantifies over every interleaving of the ingest goroutine
    with the watermark/trigger goroutine at lock granularity. *)
 From Coq Require Import Lia Sorted.
+From SV Require Import Spec.QuietSpec Proofs.QuietProofs.
 From SV Require Import Model.Tumbling Proofs.TumblingProofs Proofs.TumblingComplete Proofs.TumblingPT.
 
 (* every batch is a size-aligned half-open interval [k*size,(k+1)*size) and holds only rows that
@@ -60,6 +61,15 @@ Theorem C01_processing_time_membership : forall c h,
     forall r, In r (b_rows b) -> b_start b <= rts r < b_end b.
 Proof. intros c h Hs Hok. exact (pt_membership c Hs h pst0 (InvP_0 c) Hok). Qed.
 Print Assumptions C01_processing_time_membership.
+
+(* delivery liveness across a channel overflow: on every trace, once the trigger code found the watermark channel
+   empty, a tick happened and the channel was drained again with no Add in between, the last watermark received is
+   >= (largest sane timestamp) - ooo, so by C01_watermark_moves_slot / C01_on_time_complete every on-time row of an
+   interval that ended before it has been reported (Spec/QuietSpec.v is the executable form the harness applies) *)
+Theorem C01_tick_redelivers_skipped_watermark : forall c base h,
+  Forall (now_is base) h -> quiet_violated (ooo c) base (snd (run c st0 h)) = false.
+Proof. exact tumbling_quiet. Qed.
+Print Assumptions C01_tick_redelivers_skipped_watermark.
 
 (* non-vacuity: two fired windows, a boundary timestamp, an on-time row older than the first
    row's interval (the repaired defect), a late drop, a delivery between Adds *)
